@@ -566,15 +566,15 @@ class Array(Node):
         """
         # get data
         dset = group['data']
-        data = dset[:]
+        data = dset[...]
         units = dset.attrs['units']
         rank = len(data.shape)
 
         # determine if this is a stack array
         # (the labels dim carries no units - a calibrated axis which
         # happens to be called '_labels_' does)
-        last_dim = group[f"dim{rank-1}"]
-        if last_dim.attrs['name'] == '_labels_' and 'units' not in last_dim.attrs:
+        last_dim = group[f"dim{rank-1}"] if rank > 0 else None
+        if last_dim is not None and last_dim.attrs['name'] == '_labels_' and 'units' not in last_dim.attrs:
             is_stack = True
             normal_dims = rank-1
         else:
